@@ -82,6 +82,34 @@ func (e *omEnv) valueAt(v ssa.Value, d int) bool {
 		if g := x.Call.StaticCallee(); g != nil && e.P.isModuleFunc(g) && g.Blocks == nil && len(x.Call.Args) == 1 {
 			return e.valueAt(x.Call.Args[0], d+1)
 		}
+		// a module helper that loads (a part of) the value through the pointer it is given
+		if g := x.Call.StaticCallee(); g != nil && e.P.isModuleFunc(g) && g.Blocks != nil && d < 4 && g.Signature.Results().Len() == 1 {
+			sub := &omEnv{P: e.P, ptrs: map[ssa.Value]bool{}, vals: map[ssa.Value]bool{}}
+			n := 0
+			for i, a := range x.Call.Args {
+				if i >= len(g.Params) {
+					break
+				}
+				if e.ptrAlias(a, 0) {
+					sub.ptrs[g.Params[i]] = true
+					n++
+				} else if e.valueAt(a, d+1) {
+					sub.vals[g.Params[i]] = true
+					n++
+				}
+			}
+			if n > 0 {
+				all := true
+				for _, r := range returnsOf(g) {
+					if !sub.valueAt(resolvedResults(r)[0], d+1) {
+						all = false
+					}
+				}
+				if all && len(returnsOf(g)) > 0 {
+					return true
+				}
+			}
+		}
 	}
 	return false
 }
